@@ -14,6 +14,9 @@ A case: dict(cls="MC"|"BMP", init=None|[[name, value]...], ctl=dict(width, heigh
      | ["app", [pos...], [[name, value]...], [op...], intr]   (intr = null, or the name of the BaseException
                                    the connection raises while the block's stop command is being sent)
      | ["withcb", [[name, value]...], [op...], exc]   (a block whose before_close callback raises exc)
+     | ["getargs", "clear"|"pop"|"update", [[name, value]...]]   (d = c.get_context_arguments(); d is edited)
+   an "app" op may carry a 6th element: a variable number -- the application context is then created once
+   (app = c.application(n)) and entered again on later uses
      | ["update", [[name, value]...]] | ["raise"] | ["try", [op...]]
   value = int | null | true/false | {"t": k}   (an opaque object; materialised per method/parameter here)
 A case may carry "discover": a machine description; then MachineController.discover_connections() is RUN FOR
@@ -306,14 +309,14 @@ def discover(case, c):
             except Exception:
                 pass
         try:
-            c.discover_connections()
+            c.discover_connections(255, 255)       # explicitly via the chip the initial connection is attached to
         except Exception as e:
             err = type(e).__name__
         if case.get("discover2") and err is None:
             # the machine changes (e.g. boards are removed: it shrinks) and is discovered again
             MODE["machine"] = Machine(case["discover2"])
             try:
-                c.discover_connections()
+                c.discover_connections(255, 255)       # explicitly via the chip the initial connection is attached to
             except Exception as e:
                 err = "second run: " + type(e).__name__
     finally:
@@ -357,6 +360,7 @@ def run_case(case):
     c = build(case)
     del TRACE[:]
     kept = {}          # Context objects kept in variables
+    kept_apps = {}     # application contexts kept in variables
     events = []
 
     def args_of(method, pos, kw):
@@ -406,8 +410,14 @@ def run_case(case):
             elif kind == "app":
                 before = snapshot(c)
                 a, k = args_of("application", op[1], op[2])
+                avar = op[5] if len(op) > 5 else None
                 try:
-                    ctx = c.application(*a, **k)
+                    if avar is not None and avar in kept_apps:
+                        ctx = kept_apps[avar]             # app = c.application(n) kept in a variable, entered again
+                    else:
+                        ctx = c.application(*a, **k)
+                        if avar is not None:
+                            kept_apps[avar] = ctx
                 except Exception as e:
                     events.append(["call", "application", [], exc_name(e)])
                     raise
@@ -436,6 +446,17 @@ def run_case(case):
                 finally:
                     after = snapshot(c)
                     events.append(["stack", "exit", after[0], after[1]])
+            elif kind == "getargs":
+                # a caller looks at the arguments in force and edits the dictionary it was handed
+                d = c.get_context_arguments()
+                how = op[1]
+                if how == "clear":
+                    d.clear()
+                elif how == "pop":
+                    for key in list(d)[:1]:
+                        d.pop(key)
+                else:
+                    d.update({k: materialise(cls, "__call__", k, v) for k, v in op[2]})
             elif kind == "update":
                 c.update_current_context(**{k: materialise(cls, "__call__", k, v) for k, v in op[1]})
             elif kind == "raise":
